@@ -36,12 +36,30 @@ MANAGER = "src/crypto/CryptoManager.cpp"
 MASK32 = 0xFFFFFFFF
 
 
+HARNESS_NOTES: list[str] = []        # copied into the evidence by post()
+INTERNALS = {"available": True}      # False when the harness had to be built with -DVERIF_INTERNALS=0
+INTERNAL_OPS = ("qr", "block", "ctr")   # ops that call anonymous-namespace helpers by name
+
+
 def harness():
-    return build_harness("chacha_h", "harness/chacha_h.cpp", [], includes_repo_cpp=True)
+    """The harness reaches quarter_round / chacha20_block / derive_counter by name (they have no public
+    route). If a rename makes that impossible it is rebuilt with the public-API ops only."""
+    notes: list[str] = []
+    exe, ok = build_harness_with_fallback(
+        lambda defs: build_harness("chacha_h", "harness/chacha_h.cpp", [], includes_repo_cpp=True, defines=defs), notes)
+    INTERNALS["available"] = ok
+    for n in notes:
+        if n not in HARNESS_NOTES:
+            HARNESS_NOTES.append(n)
+    return exe
 
 
 # ----------------------------------------------------------------------------------------------
-# (T) extraction: constants, the quarter-round statement list, index tuples, state layout
+# (T) extraction: constants, the quarter-round statement list, index tuples, state layout.
+# Everything is located by *shape*, not by name: the 4-word constant array, the rotate helper by
+# its body, the little-endian load/store helpers by their bodies, the quarter round by its
+# parameter list + add/xor/rotate statement structure, the block function as the one that calls it.
+# An item that cannot be re-read is a translator gap: its default (= the expected value) is emitted.
 # ----------------------------------------------------------------------------------------------
 
 DEFAULTS = {
@@ -61,40 +79,54 @@ DEFAULTS = {
     "deriveCounterTerms": [(0, 0), (1, 8), (2, 16), (3, 24)],
 }
 
-
-def _body(text: str, header_re: str) -> str:
-    """text of the brace-balanced block following the first match of header_re"""
-    m = re.search(header_re, text, flags=re.S)
-    if not m:
-        raise ValueError("function not found")
-    i = text.index("{", m.end() - 1) if text[m.end() - 1] != "{" else m.end() - 1
-    depth = 0
-    for j in range(i, len(text)):
-        if text[j] == "{":
-            depth += 1
-        elif text[j] == "}":
-            depth -= 1
-            if depth == 0:
-                return text[i + 1:j]
-    raise ValueError("unbalanced braces")
+_KEYWORDS = {"for", "while", "if", "switch", "catch", "return", "sizeof", "static_cast", "decltype"}
+_ID = r"[A-Za-z_]\w*"
 
 
 def _int(s: str) -> int:
     return eval_cxx_int(s)
 
 
-def _shift_terms(body: str, var: str) -> list:
-    """`static_cast<std::uint32_t>(var[i]) | (static_cast<…>(var[j]) << s) | …` -> [(i, 0), (j, s), …]"""
-    ret = re.search(r"return\s+(.*?);", body, flags=re.S)
+def _functions(text: str) -> list[dict]:
+    """every `name(params) [const] [noexcept] { body }` in the text: name, raw parameter text, body"""
+    out = []
+    for m in re.finditer(r"\b(" + _ID + r")\s*\(([^()]*)\)\s*(?:const\s*)?(?:noexcept\s*)?\{", text):
+        if m.group(1) in _KEYWORDS:
+            continue
+        i = m.end() - 1
+        depth = 0
+        for j in range(i, len(text)):
+            if text[j] == "{":
+                depth += 1
+            elif text[j] == "}":
+                depth -= 1
+                if depth == 0:
+                    out.append({"name": m.group(1), "params": m.group(2), "body": text[i + 1:j], "start": m.start()})
+                    break
+    return out
+
+
+def _param_names(params: str) -> list[str]:
+    names = []
+    for p_ in params.split(","):
+        mm = re.search(r"(" + _ID + r")\s*$", p_.strip())
+        names.append(mm.group(1) if mm else "")
+    return names
+
+
+def _shift_or_terms(body: str) -> Optional[tuple[str, list]]:
+    """`return static_cast<std::uint32_t>(v[i]) | (static_cast<…>(v[j]) << s) | …;` -> (v, [(i, 0), (j, s), …])"""
+    ret = re.fullmatch(r"\s*return\s+(.*?);\s*", body, flags=re.S)
     if not ret:
-        raise ValueError("no return expression")
-    terms = []
+        return None
+    terms, var = [], None
     for part in ret.group(1).split("|"):
-        m = re.fullmatch(r"\s*\(?\s*static_cast<std::uint32_t>\(\s*" + re.escape(var) + r"\[(\d+)\]\s*\)\s*(?:<<\s*(\d+)\s*)?\)?\s*", part)
-        if not m:
-            raise ValueError(f"unrecognised term {part.strip()!r}")
-        terms.append((int(m.group(1)), int(m.group(2) or 0)))
-    return terms
+        m = re.fullmatch(r"\s*\(?\s*static_cast<std::uint32_t>\(\s*(" + _ID + r")\[(\d+)\]\s*\)\s*(?:<<\s*(\d+)\s*)?\)?\s*", part)
+        if not m or (var is not None and m.group(1) != var):
+            return None
+        var = m.group(1)
+        terms.append((int(m.group(2)), int(m.group(3) or 0)))
+    return (var, terms) if terms else None
 
 
 def extract_tables() -> tuple[dict, list[str]]:
@@ -104,144 +136,224 @@ def extract_tables() -> tuple[dict, list[str]]:
         src = _strip_comments((REPO / CHACHA).read_text(errors="replace"))
     except OSError as ex:
         return vals, [f"{CHACHA}: {ex}"]
+    fns = _functions(src)
+    names: dict[str, str] = {}      # role -> identifier found in this tree
 
-    def attempt(name, fn):
+    def attempt(name, fn, file=CHACHA):
         try:
-            vals[name] = fn()
-        except Exception as ex:  # translator gap, never an alarm by itself
-            gaps.append(f"{name} ({CHACHA}): {ex}")
+            v = fn()
+            if isinstance(v, dict):
+                vals.update(v)
+            elif v is not None:
+                vals[name] = v
+        except Exception as ex:  # translator gap, never an alarm by itself: the default stays
+            gaps.append(f"{name} ({file}): {ex}")
 
     def sigma():
-        m = re.search(r"kSigma\s*\{([^}]*)\}", src)
-        if not m:
-            raise ValueError("pattern not found")
-        return [_int(x) for x in m.group(1).split(",") if x.strip()]
+        # the only constexpr array of four 32-bit words
+        ms = re.findall(r"constexpr\s+std::array<\s*std::uint32_t\s*,\s*4\s*>\s+(" + _ID + r")\s*\{([^}]*)\}", src)
+        if len(ms) != 1:
+            raise ValueError(f"{len(ms)} candidate 4-word constant arrays")
+        names["sigma"] = ms[0][0]
+        ws = [_int(x) for x in ms[0][1].split(",") if x.strip()]
+        if len(ws) != 4:
+            raise ValueError("not four words")
+        return ws
 
     def block_size():
-        m = re.search(r"constexpr\s+std::size_t\s+kBlockSize\s*=\s*([^;]+);", src)
-        if not m:
-            raise ValueError("pattern not found")
-        return _int(m.group(1))
+        # the std::size_t constant used as the size of a byte array (key-stream buffer)
+        consts = dict(re.findall(r"constexpr\s+std::size_t\s+(" + _ID + r")\s*=\s*([^;]+);", src))
+        used = [n for n in consts if re.search(r"std::array<\s*std::uint8_t\s*,\s*" + re.escape(n) + r"\s*>", src)]
+        if len(used) != 1:
+            raise ValueError(f"{len(used)} candidate block-size constants")
+        names["blockSize"] = used[0]
+        return _int(consts[used[0]])
 
     def rotl_width():
-        body = _body(src, r"std::uint32_t\s+rotl32\s*\([^)]*\)\s*(?:noexcept\s*)?\{")
-        m = re.fullmatch(r"\s*return\s+static_cast<std::uint32_t>\(\s*\(value\s*<<\s*shift\)\s*\|\s*\(value\s*>>\s*\((\d+)\s*-\s*shift\)\)\s*\)\s*;\s*", body)
-        if not m:
-            raise ValueError("body is not (value << shift) | (value >> (W - shift))")
-        return int(m.group(1))
+        # helper whose body is `(v << s) | (v >> (W - s))`
+        hits = []
+        for f in fns:
+            pn = _param_names(f["params"])
+            if len(pn) != 2:
+                continue
+            v, sh = map(re.escape, pn)
+            m = re.fullmatch(r"\s*return\s+(?:static_cast<std::uint32_t>\()?\s*\(" + v + r"\s*<<\s*" + sh + r"\)\s*\|\s*\(" + v +
+                             r"\s*>>\s*\((\d+)\s*-\s*" + sh + r"\)\)\s*\)?\s*;\s*", f["body"])
+            if m:
+                hits.append((f["name"], int(m.group(1))))
+        if len(hits) != 1:
+            raise ValueError(f"{len(hits)} functions of the shape (v << s) | (v >> (W - s))")
+        names["rotl"] = hits[0][0]
+        return hits[0][1]
+
+    def load_terms():
+        hits = [(f["name"], t[1]) for f in fns if len(_param_names(f["params"])) == 1 and (t := _shift_or_terms(f["body"]))
+                and t[0] == _param_names(f["params"])[0]]
+        if len(hits) != 1:
+            raise ValueError(f"{len(hits)} functions of the shape OR of (p[i] << s)")
+        names["load"] = hits[0][0]
+        return hits[0][1]
+
+    def store_shifts():
+        hits = []
+        for f in fns:
+            pn = _param_names(f["params"])
+            if len(pn) != 2:
+                continue
+            dst, val = map(re.escape, pn)
+            out, mask, okay = {}, set(), True
+            stmts = [x.strip() for x in f["body"].split(";") if x.strip()]
+            for st_ in stmts:
+                m = re.fullmatch(dst + r"\[(\d+)\]\s*=\s*static_cast<std::uint8_t>\(\s*(?:" + val + r"|\(" + val +
+                                 r"\s*>>\s*(\d+)\))\s*&\s*(\w+)\s*\)", st_)
+                if not m:
+                    okay = False
+                    break
+                out[int(m.group(1))] = int(m.group(2) or 0)
+                mask.add(_int(m.group(3)))
+            if okay and stmts and sorted(out) == list(range(len(out))) and len(mask) == 1:
+                hits.append((f["name"], [out[i] for i in range(len(out))], mask.pop()))
+        if len(hits) != 1:
+            raise ValueError(f"{len(hits)} functions of the shape p[k] = (v >> s) & mask")
+        names["store"] = hits[0][0]
+        return {"store32Shifts": hits[0][1], "store32Mask": hits[0][2]}
 
     def qr_program():
-        m = re.search(r"void\s+quarter_round\s*\(([^)]*)\)", src)
-        if not m:
-            raise ValueError("pattern not found")
-        params = [re.search(r"(\w+)\s*$", p).group(1) for p in m.group(1).split(",")]
-        if len(params) != 4:
-            raise ValueError("expected four parameters")
-        reg = {p: i for i, p in enumerate(params)}
-        body = _body(src, r"void\s+quarter_round\s*\([^)]*\)\s*(?:noexcept\s*)?\{")
-        prog = []
-        for st in body.split(";"):
-            st = st.strip()
-            if not st:
+        # four std::uint32_t& parameters; every statement is `x += y`, `x ^= y` or `x = ROT(y, n)`
+        rot = names.get("rotl")
+        hits = []
+        for f in fns:
+            if len(re.findall(r"std::uint32_t\s*&", f["params"])) != 4:
                 continue
-            if (mm := re.fullmatch(r"(\w+)\s*\+=\s*(\w+)", st)):
-                prog.append((0, reg[mm.group(1)], reg[mm.group(2)], 0))
-            elif (mm := re.fullmatch(r"(\w+)\s*\^=\s*(\w+)", st)):
-                prog.append((1, reg[mm.group(1)], reg[mm.group(2)], 0))
-            elif (mm := re.fullmatch(r"(\w+)\s*=\s*rotl32\(\s*(\w+)\s*,\s*(\d+)\s*\)", st)):
-                prog.append((2, reg[mm.group(1)], reg[mm.group(2)], int(mm.group(3))))
-            else:
-                raise ValueError(f"unrecognised statement {st!r}")
-        return prog
+            pn = _param_names(f["params"])
+            if len(pn) != 4:
+                continue
+            reg = {p_: i for i, p_ in enumerate(pn)}
+            prog, okay = [], True
+            for st_ in [x.strip() for x in f["body"].split(";") if x.strip()]:
+                if (mm := re.fullmatch(r"(" + _ID + r")\s*\+=\s*(" + _ID + r")", st_)) and mm.group(1) in reg and mm.group(2) in reg:
+                    prog.append((0, reg[mm.group(1)], reg[mm.group(2)], 0))
+                elif (mm := re.fullmatch(r"(" + _ID + r")\s*\^=\s*(" + _ID + r")", st_)) and mm.group(1) in reg and mm.group(2) in reg:
+                    prog.append((1, reg[mm.group(1)], reg[mm.group(2)], 0))
+                elif (mm := re.fullmatch(r"(" + _ID + r")\s*=\s*(" + _ID + r")\(\s*(" + _ID + r")\s*,\s*(\d+)\s*\)", st_)) \
+                        and mm.group(1) in reg and mm.group(3) in reg and (rot is None or mm.group(2) == rot):
+                    prog.append((2, reg[mm.group(1)], reg[mm.group(3)], int(mm.group(4))))
+                else:
+                    okay = False
+                    break
+            if okay and prog:
+                hits.append((f["name"], prog))
+        if len(hits) != 1:
+            raise ValueError(f"{len(hits)} functions with four uint32& parameters and an add/xor/rotate body")
+        names["qr"] = hits[0][0]
+        return hits[0][1]
 
     blk: dict = {}
 
-    def block_body():
-        blk["body"] = _body(src, r"void\s+chacha20_block\s*\([^)]*\)\s*(?:noexcept\s*)?\{")
+    def block_fn():
+        qr = names.get("qr")
+        if not qr:
+            raise ValueError("quarter round not located")
+        cands = [f for f in fns if re.search(r"\b" + re.escape(qr) + r"\s*\(", f["body"])]
+        if len(cands) != 1:
+            raise ValueError(f"{len(cands)} functions call the quarter round")
+        f = cands[0]
+        ps = [x.strip() for x in f["params"].split(",")]
+        role = {}
+        for p_ in ps:
+            nm = re.search(r"(" + _ID + r")\s*$", p_).group(1)
+            if re.search(r"\bKey\b", p_):
+                role["key"] = nm
+            elif re.search(r"\bNonce\b", p_):
+                role["nonce"] = nm
+            elif re.fullmatch(r"(?:const\s+)?std::uint32_t\s+" + _ID, p_):
+                role["counter"] = nm
+        if set(role) != {"key", "nonce", "counter"}:
+            raise ValueError("parameters (Key, Nonce, uint32 counter) not recognised")
+        mw = re.search(r"auto\s+(" + _ID + r")\s*=\s*(" + _ID + r")\s*;", f["body"])
+        if not mw:
+            raise ValueError("`auto working = state;` not found")
+        blk.update(body=f["body"], role=role, working=mw.group(1), state=mw.group(2), split=mw.start())
         return None
 
-    attempt("_block", block_body)
-    vals.pop("_block", None)
-    body = blk.get("body", "")
-
     def double_rounds():
-        m = re.search(r"for\s*\(\s*int\s+i\s*=\s*0\s*;\s*i\s*<\s*(\d+)\s*;\s*\+\+i\s*\)\s*\{\s*quarter_round", body)
+        qr = re.escape(names["qr"])
+        m = re.search(r"for\s*\(\s*(?:int|std::size_t|unsigned)\s+(" + _ID + r")\s*=\s*0\s*;\s*\1\s*<\s*(\d+)\s*;\s*(?:\+\+\1|\1\+\+)\s*\)\s*\{\s*" + qr + r"\s*\(",
+                      blk["body"])
         if not m:
             raise ValueError("round loop not found")
-        return int(m.group(1))
+        return int(m.group(2))
 
     def qr_indices():
-        calls = re.findall(r"quarter_round\(\s*working_state\[(\d+)\]\s*,\s*working_state\[(\d+)\]\s*,\s*working_state\[(\d+)\]\s*,\s*working_state\[(\d+)\]\s*\)", body)
-        n_calls = len(re.findall(r"quarter_round\s*\(", body))
+        qr, w = re.escape(names["qr"]), re.escape(blk["working"])
+        idx = r"\s*" + w + r"\[(\d+)\]\s*"
+        calls = re.findall(qr + r"\(" + idx + "," + idx + "," + idx + "," + idx + r"\)", blk["body"])
+        n_calls = len(re.findall(r"\b" + qr + r"\s*\(", blk["body"]))
         if not calls or len(calls) != n_calls:
             raise ValueError(f"{n_calls} calls, {len(calls)} recognised")
         return [tuple(int(x) for x in c) for c in calls]
 
     def state_init():
-        head = body.split("auto working_state")[0]
-        st = [(4, 0)] * 16
-        # expand `for (i = 0; i < N; ++i) { state[B + i] = load32_le(&key.bytes[i * S]); }`
-        pos = 0
+        head = blk["body"][:blk["split"]]
+        st_name, role = re.escape(blk["state"]), blk["role"]
+        sig, load = names.get("sigma"), names.get("load")
+        if not sig or not load:
+            raise ValueError("constant array / load helper not located")
+        src_re = r"\(\s*&(" + re.escape(role["key"]) + "|" + re.escape(role["nonce"]) + r")\.bytes\["
+        kind = {role["key"]: 1, role["nonce"]: 3}
+        st = [None] * 16
         events = []
-        for m in re.finditer(r"for\s*\(\s*std::size_t\s+i\s*=\s*0\s*;\s*i\s*<\s*(\d+)\s*;\s*\+\+i\s*\)\s*\{\s*state\[\s*(\d+)\s*\+\s*i\s*\]\s*=\s*load32_le\(\s*&(key|nonce)\.bytes\[\s*i\s*\*\s*(\d+)\s*\]\s*\)\s*;\s*\}", head):
-            events.append((m.start(), [(int(m.group(2)) + i, (1 if m.group(3) == "key" else 3, i * int(m.group(4)))) for i in range(int(m.group(1)))]))
+        loop_re = (r"for\s*\(\s*std::size_t\s+(" + _ID + r")\s*=\s*0\s*;\s*\1\s*<\s*(\d+)\s*;\s*(?:\+\+\1|\1\+\+)\s*\)\s*\{\s*" + st_name +
+                   r"\[\s*(\d+)\s*\+\s*\1\s*\]\s*=\s*" + re.escape(load) + src_re + r"\s*\1\s*\*\s*(\d+)\s*\]\s*\)\s*;\s*\}")
+        for m in re.finditer(loop_re, head):
+            events.append((m.start(), [(int(m.group(3)) + i, (kind[m.group(4)], i * int(m.group(5)))) for i in range(int(m.group(2)))]))
         stripped = re.sub(r"for\s*\([^)]*\)\s*\{[^}]*\}", lambda m: " " * len(m.group(0)), head)
-        for m in re.finditer(r"state\[(\d+)\]\s*=\s*([^;]+);", stripped):
+        for m in re.finditer(st_name + r"\[(\d+)\]\s*=\s*([^;]+);", stripped):
             rhs = m.group(2).strip()
-            if (mm := re.fullmatch(r"kSigma\[(\d+)\]", rhs)):
+            if (mm := re.fullmatch(re.escape(sig) + r"\[(\d+)\]", rhs)):
                 v = (0, int(mm.group(1)))
-            elif rhs == "counter":
+            elif rhs == role["counter"]:
                 v = (2, 0)
-            elif (mm := re.fullmatch(r"load32_le\(\s*&(key|nonce)\.bytes\[(\d+)\]\s*\)", rhs)):
-                v = (1 if mm.group(1) == "key" else 3, int(mm.group(2)))
+            elif (mm := re.fullmatch(re.escape(load) + src_re + r"(\d+)\]\s*\)", rhs)):
+                v = (kind[mm.group(1)], int(mm.group(2)))
             else:
                 raise ValueError(f"unrecognised initialiser {rhs!r}")
             events.append((m.start(), [(int(m.group(1)), v)]))
-        if len(re.findall(r"state\[", head)) != sum(1 for _ in events):
+        if len(re.findall(r"\b" + st_name + r"\[", head)) != len(events):
             raise ValueError("some state[...] assignment was not recognised")
         for _, assigns in sorted(events):
-            for idx, v in assigns:
-                if idx >= 16:
+            for i, v in assigns:
+                if i >= 16:
                     raise ValueError("index out of range")
-                st[idx] = v
-        return st
-
-    def load_terms():
-        return _shift_terms(_body(src, r"std::uint32_t\s+load32_le\s*\([^)]*\)\s*(?:noexcept\s*)?\{"), "data")
-
-    def store_shifts():
-        b = _body(src, r"void\s+store32_le\s*\([^)]*\)\s*(?:noexcept\s*)?\{")
-        out = {}
-        mask = set()
-        for st_ in b.split(";"):
-            st_ = st_.strip()
-            if not st_:
-                continue
-            m = re.fullmatch(r"dst\[(\d+)\]\s*=\s*static_cast<std::uint8_t>\(\s*(?:value|\(value\s*>>\s*(\d+)\))\s*&\s*(\w+)\s*\)", st_)
-            if not m:
-                raise ValueError(f"unrecognised statement {st_!r}")
-            out[int(m.group(1))] = int(m.group(2) or 0)
-            mask.add(_int(m.group(3)))
-        if sorted(out) != list(range(len(out))) or len(mask) != 1:
-            raise ValueError("unexpected destination indices / masks")
-        vals["store32Mask"] = mask.pop()
-        return [out[i] for i in range(len(out))]
+                st[i] = v
+        if not re.search(r"std::array<\s*std::uint32_t\s*,\s*16\s*>\s+" + st_name + r"\s*\{\s*\}", head):
+            raise ValueError("state is not a zero-initialised array of 16 words")
+        if not events:
+            raise ValueError("no state initialisation recognised")
+        return [v if v is not None else (4, 0) for v in st]
 
     attempt("sigma", sigma)
     attempt("kBlockSize", block_size)
     attempt("rotlWidth", rotl_width)
+    attempt("load32Terms", load_terms)
+    attempt("store32Shifts", store_shifts)
     attempt("qrProgram", qr_program)
-    if body:
+    n_gaps = len(gaps)
+    attempt("chacha20_block", block_fn)
+    if len(gaps) == n_gaps:
         attempt("doubleRounds", double_rounds)
         attempt("qrIndices", qr_indices)
         attempt("stateInit", state_init)
-    attempt("load32Terms", load_terms)
-    attempt("store32Shifts", store_shifts)
-    try:
+
+    def derive_terms():
         msrc = _strip_comments((REPO / MANAGER).read_text(errors="replace"))
-        vals["deriveCounterTerms"] = _shift_terms(_body(msrc, r"std::uint32_t\s+derive_counter\s*\([^)]*\)\s*(?:noexcept\s*)?\{"), "chunk_id")
-    except Exception as ex:
-        gaps.append(f"deriveCounterTerms ({MANAGER}): {ex}")
+        hits = [t[1] for f in _functions(msrc) if "ChunkId" in f["params"] and len(_param_names(f["params"])) == 1
+                and (t := _shift_or_terms(f["body"])) and t[0] == _param_names(f["params"])[0]]
+        if len(hits) != 1:
+            raise ValueError(f"{len(hits)} functions of the shape OR of (chunk_id[i] << s)")
+        return hits[0]
+
+    attempt("deriveCounterTerms", derive_terms, MANAGER)
     return vals, gaps
 
 
@@ -439,9 +551,21 @@ def _mass_failure(ctx, cases) -> bool:
     return False
 
 
+def _public_only(cases):
+    """drop the ops that need the harness internals (quarter_round, chacha20_block, derive_counter by name)"""
+    out = []
+    for c in cases:
+        ops = [op for op in c.ops if op.split(" ", 1)[0] not in INTERNAL_OPS]
+        if ops:
+            out.append(Case(ops=ops, tag=c.tag, cid=c.cid))
+    return out
+
+
 def generate(ctx, budget):
     rng = ctx.rng
     cases = [gen_case(rng, i, ctx.tier) for i in range(budget)]
+    if not INTERNALS["available"]:
+        cases = _public_only(cases)
     if _mass_failure(ctx, cases):
         return cases[:48]
     # 64 KiB inputs (1024 blocks; with the counters below the stream crosses 2^32)
@@ -476,6 +600,11 @@ def nontrivial(r: CaseResult) -> bool:
 def post(ctx, results):
     """evidence note on the excluded point (all-zero key): how often the static round trip
     did not return the plaintext because each temporary manager drew its own random key"""
+    for n in HARNESS_NOTES:
+        if n not in ctx.notes:
+            ctx.notes.append(n)
+    if not INTERNALS["available"]:
+        ctx.coverage["internals_available"] = False
     total = failed = 0
     for r in results:
         for op, out in zip(r.case.ops, r.impl):
